@@ -345,5 +345,8 @@ func VP_C06_compose() {
 		vp.Assert(err == nil, "Scan err==nil")
 	}
 	vp.Assert(da == a && db == b && ds == s && df == flag, "composition round trip")
+	vp.Observe("ref", ref)
+	vp.Observe("a", int32(da))
+	vp.Observe("s", string(ds))
 	vp.Cover("end")
 }
